@@ -466,3 +466,27 @@ def rel_edges(f, pa, op, pb, truth=True):
             out.append((bid, t if want_true_edge else fl))
             break
     return out
+
+
+def counted_loop_exits(f, gs):
+    """exit edges of constant-trip-count loops (`for (u = 0; u < K; u++)`, K a positive constant) every iteration of
+    which passes one of the guards gs: taking such an exit edge means the guard was passed K >= 1 times, although the CFG,
+    path-insensitively, also lets the loop exit before its first iteration."""
+    out = []
+    from ..ir import const_val as _cv
+    for bid, cond, t, fl in f.branches():
+        c = strip_casts(f.resolve_x(cond))
+        if c is None or c.get("k") != "bin" or c.get("op") != "<" or not isinstance(_cv(c["rhs"]), int) or _cv(c["rhs"]) < 1:
+            continue
+        v = strip_casts(c["lhs"])
+        if v.get("k") != "ref" or v.get("rk") not in ("l", "sl"):
+            continue
+        defs = f.local_defs().get(v["n"], [])
+        consts = [d for d in defs if d is not None]
+        if not consts or any(_cv(d) != 0 for d in consts) or len(defs) != len(consts) + 1:
+            continue            # not `v = 0` plus exactly one increment
+        if bid not in f.reachable([t]):
+            continue            # the true edge does not come back: not a loop
+        if f.must_pass(via_edges=[(g.bid, g.ok) for g in gs] + [(g.bid, g.fail) for g in gs], starts=[(t, 0)], targets=[(bid, 0)]):
+            out.append((bid, fl))
+    return out
